@@ -17,8 +17,11 @@ SHARDS = {"quick": 1, "thorough": 16}
 
 VERBS = ["POWERON", "POWEROFF", "RXTUNE", "TXTUNE", "MEASURE", "SETFH", "SETFORMAT", "SETPOWER", "NOMTXPOWER",
 	"RFMUTE", "SETTA", "FAKE_TOA", "FAKE_RSSI", "FAKE_CI", "FAKE_DROP", "SETSLOT", "SETTSC", "SETBSIC",
-	"SETRXGAIN", "ADJPOWER", "NOHANDOVER", "ECHO", "XYZZY", "poweron"]
+	"SETRXGAIN", "ADJPOWER", "NOHANDOVER", "ECHO", "XYZZY", "poweron", "FAKE_TRXC_DELAY"]
 POOL = [890000, 890200, 935000, 935200, 902000]
+
+
+VT = [None]      # virtual time source of ctrl_if (FAKE_TRXC_DELAY sleeps on it)
 
 
 def rand_int(r, verb, pos):
@@ -43,6 +46,10 @@ def rand_int(r, verb, pos):
 		return r.choice((0, 1, 10, 20, -5, 2**31))
 	if verb == "RFMUTE":
 		return r.choice((0, 1, 2, -1))
+	if verb == "FAKE_TRXC_DELAY":
+		if VT[0] is None:
+			return 0        # the sleep could not be made virtual: no real delays in this workload
+		return r.choice((0, 0, 1, 20, 250, 60000))       # the documented range (values outside it: C14)
 	if k < 0.5:
 		return r.choice((0, 1, -1, 2**31 - 1, 2**31, -2**31, 2**63, -2**63, 255, 256))
 	return r.randint(-1000, 1000)
@@ -51,7 +58,7 @@ def rand_int(r, verb, pos):
 def rand_cmd(r):
 	verb = r.choice(VERBS)
 	natural = {"POWERON": 0, "POWEROFF": 0, "RXTUNE": 1, "TXTUNE": 1, "MEASURE": 1, "SETFORMAT": 1, "SETPOWER": 1,
-		"NOMTXPOWER": 0, "RFMUTE": 1, "SETTA": 1}.get(verb)
+		"NOMTXPOWER": 0, "RFMUTE": 1, "SETTA": 1, "FAKE_TRXC_DELAY": 1}.get(verb)
 	if verb == "SETFH":
 		argc = r.choice((4, 4, 6, 8, 5, 7, 3, 2, 0, 20, 40, 130))
 	elif verb.startswith("FAKE_"):
@@ -114,16 +121,22 @@ def sequence(ctx, r, idx):
 	log = []
 	# a random prior state
 	linked = r.random() < 0.6
-	for i in range(n):
-		if linked:
-			rx, tx = (POOL[0], POOL[2]) if i != 1 else (POOL[2], POOL[0])
-			bench.cmd(i, "RXTUNE %d" % rx)
-			bench.cmd(i, "TXTUNE %d" % tx)
-			if r.random() < 0.8:
-				bench.cmd(i, "POWERON")
-		elif r.random() < 0.7:
-			bench.cmd(i, "RXTUNE %d" % r.choice(POOL))
-			bench.cmd(i, "TXTUNE %d" % r.choice(POOL))
+	try:
+		for i in range(n):
+			if linked:
+				rx, tx = (POOL[0], POOL[2]) if i != 1 else (POOL[2], POOL[0])
+				bench.cmd(i, "RXTUNE %d" % rx)
+				bench.cmd(i, "TXTUNE %d" % tx)
+				if r.random() < 0.8:
+					bench.cmd(i, "POWERON")
+			elif r.random() < 0.7:
+				bench.cmd(i, "RXTUNE %d" % r.choice(POOL))
+				bench.cmd(i, "TXTUNE %d" % r.choice(POOL))
+	except common.HarnessError as e:
+		# the plain commands of the set-up are part of the property too
+		ctx.violation("reply-count", {"phase": "set-up of a prior state with RXTUNE / TXTUNE / POWERON"},
+			what = "a valid command was not answered with exactly one well-formed reply: %s" % e)
+		return
 	for k in range(r.randint(15, 40)):
 		i = r.randrange(n)
 		node, m = bench.nodes[i], bench.models[i]
@@ -150,7 +163,9 @@ def sequence(ctx, r, idx):
 		src = other if from_other else node.l1_ctrl
 		log.append("%s <- %s%s" % (specs[i]["name"], text[:90], " (from another port)" if from_other else ""))
 		src.sendto(payload, node.ctrl_port)
+		t_before = VT[0].now if VT[0] is not None else None
 		node.trx.ctrl_if.handle_rx()
+		slept_ns = (VT[0].now - t_before) if t_before is not None else None
 		at_src = [d for d, _ in src.take_all()]
 		elsewhere = [d for d, _ in (node.l1_ctrl.take_all() if from_other else other.take_all())]
 		ctx.count("commands")
@@ -170,6 +185,15 @@ def sequence(ctx, r, idx):
 		if verb == "FAKE_DROP" and mst == 0 and len(args) in (1, 2):
 			bench.budgets[i].set(m.drop_amount, m.drop_period)
 		ctx.count("verb:%s/argc=%d/status=%s" % (verb, min(len(args), 9), st))
+		if slept_ns is not None:
+			# FAKE_TRXC_DELAY: every reply (its own included) is held back by the configured number of milliseconds
+			ctx.count("reply_delays_checked")
+			if m.trxc_delay_ms:
+				ctx.count("replies_with_a_configured_delay")
+			if slept_ns != m.trxc_delay_ms * 1000000:
+				ctx.violation("effect", dict(w, slept_ms = slept_ns / 1e6, configured_ms = m.trxc_delay_ms),
+					what = "reply held back by %.3f ms, FAKE_TRXC_DELAY in effect is %d ms" % (slept_ns / 1e6, m.trxc_delay_ms))
+				return
 		if rverb != verb:
 			ctx.violation("reply-form", w, what = "reply names verb %r" % rverb)
 			return
@@ -432,6 +456,7 @@ def run(ctx):
 	ctx.assume("well-formed commands only: tokens separated by single spaces, integer-literal arguments; HSN/MAIO inside 0..63, "
 		"FAKE_TOA/FAKE_CI thresholds >= 0 (hostile forms belong to C14)")
 	r = ctx.rng("c05")
+	VT[0] = sim.ctrl_if_time_virtual()      # FAKE_TRXC_DELAY makes ctrl_if sleep before replying: on virtual time
 	for i in range(ctx.scale(1500, 100000)):
 		with common.case_watchdog(ctx, "sequence", {"case": i}, first = 60, second = 60):
 			sequence(ctx, ctx.case_rng("sequence", i), i)
@@ -439,6 +464,8 @@ def run(ctx):
 		if ctx.too_many() or ctx.time_left() < 0:
 			break
 	ctx.current_case = None
+	VT[0] = None
+	sim.restore_time()
 	bd = cbuild.BuildDir("c05")
 	try:
 		binary = cbuild.build_trxif(bd)
